@@ -3,23 +3,31 @@ import ZvbiModel.Search.Matcher
 import ZvbiModel.Search.LemmasCache
 import ZvbiModel.Search.LemmasSearch
 import ZvbiModel.Search.LemmasExact
+import ZvbiModel.Search.LemmasFirst
+import ZvbiModel.Search.LemmasMatcher
 import ZvbiModel.Search.Spec
-import ZvbiModel.Search.Counterexamples
+import ZvbiModel.Search.Witnesses
+import ZvbiModel.Search.WitnessD3
+import ZvbiModel.Search.WitnessD4
+import ZvbiModel.Search.WitnessD7
 /-!
 # C17 - search finds exactly the pages containing the pattern, in page order, and ends
 
 Theorems about `ZvbiModel/Search/Model.lean` (cache.c `_vbi_cache_foreach_page`, `_vbi_cache_put_page` statistics,
 search.c).  The regular expression engine and the page formatter are parameters (`Exec`, `Entry.text`).
-`walk`, `searchNext` model the CURRENT code (after the repairs F5a, F5b).  Where a full statement is false on
-the current code the hypothesis that excludes the failure is explicit and a `_counterexample` theorem gives the
-witness that is replayed on the C code (corpus/C17/D*.ops).
+`walk`, `searchNext` model the CURRENT code: after F5a, F5b and the repairs of the findings C17-D1 (8b7ac93),
+C17-D3 and C17-D2 at 256 pages (5e41e82), C17-D4 (ed2772e), C17-D5 (ce86777).  The counterexample theorems of the
+earlier delivery are replaced by the positive statements that hold now; the hypotheses the repairs made unnecessary
+(`NoAny`, the window condition on the start page, `Covered` as an assumption) are gone.  The one exclusion left is
+C17-D2 in its 16 bit form, stated explicitly as `NoWrap`: fewer than 65536 pages cached under one page number.
 -/
 namespace Zvbi.Props.C17
 open Zvbi.Search
 
 /-- **walk_terminates.** `_vbi_cache_foreach_page` returns for EVERY cache content (empty, hex pages, sub-page
-numbers >= 0x100, inconsistent statistics), every callback, every start position and both directions: the fuel
-`walkFuel` = 2 sweeps x 0x800 page numbers x 0x10001 sub-page positions is never exhausted. -/
+numbers >= 0x100, inconsistent statistics - even `subno_min > subno_max`), every callback, every start position and
+both directions: the fuel `walkFuel` = 2 sweeps x 0x800 page numbers x 0x10001 sub-page positions is never
+exhausted. -/
 theorem walk_terminates {σ : Type} (cb : Callback σ) (c : Cache) (s : σ) (pgno subno dir : Int)
     (hdir : dir = 1 ∨ dir = -1) : (walk cb walkFuel c s pgno subno dir).res ≠ .outOfFuel := by
   unfold walk
@@ -62,26 +70,35 @@ theorem walk_no_assert {σ : Type} (cb : Callback σ) (fuel : Nat) (c : Cache) (
 example : (walk (fun (s : Nat) _ _ _ => (0, s)) 5 (put Cache.empty 0x100 0 0 []) 0 0x99 0 1).res = .assertFail := by
   rw [walk_no_assert]; exact ⟨by decide, by decide⟩
 
-/-- **walk_refines.** (refinement to a specification) For every callback the walk is the left fold of that callback
-over the pages found at `walkPositions` - a list that depends on the page statistics only - stopping at the first
+/-- **walk_refines.** (refinement to a specification; STRENGTHENED: the hypothesis `NoAny` is gone) For every cache,
+every callback and every start position the walk is `walkRun`: the callback on the page `_vbi_cache_get_page` finds at
+the start position (there the caller's wildcard 0x3F7F is honoured), then the left fold of the callback over the pages
+the EXACT look-up finds at `positions` - a list that depends on the page statistics only - stopping at the first
 non-zero return value, and returning -1 at the end.  The most-recently-used reordering of the hash chains performed
-by every look-up does not influence it.  Hypothesis: no statistics window reaches the wildcard sub-page number
-0x3F7F (otherwise `walk_order_counterexample_any`). -/
-theorem walk_refines {σ : Type} (cb : Callback σ) (c : Cache) (s : σ) (pgno subno dir : Int) (hno : NoAny c)
+by every look-up does not influence it.  When the start page number is not xFF (or nothing is cached under it, which
+`_vbi_cache_put_page` guarantees) this is the uniform fold `runPos` over `walkPositions`.  The page handed over at a
+position (p, s) has exactly the sub-page number s, 0x3F7F included (C17-D5 repaired). -/
+theorem walk_refines {σ : Type} (cb : Callback σ) (c : Cache) (s : σ) (pgno subno dir : Int)
     (hne : c.nCached ≠ 0) (hp : PgOk pgno) (hdir : dir = 1 ∨ dir = -1) :
-    (walk cb walkFuel c s pgno subno dir).res = .ret (runPos cb c (walkPositions c pgno subno dir) s).1 ∧
-    (walk cb walkFuel c s pgno subno dir).st = (runPos cb c (walkPositions c pgno subno dir) s).2 :=
-  walk_factors cb c s pgno subno dir hno hne hp hdir
+    (walk cb walkFuel c s pgno subno dir).res = .ret (walkRun cb c pgno subno dir s).1 ∧
+    (walk cb walkFuel c s pgno subno dir).st = (walkRun cb c pgno subno dir s).2 ∧
+    (StartOk c pgno → walkRun cb c pgno subno dir s = runPos cb c (walkPositions c pgno subno dir) s) ∧
+    (∀ p sub e, lookupX c p sub = some e → (e.subno : Int) = sub ∧ e ∈ (c.slots p.toNat).chain) := by
+  obtain ⟨h1, h2⟩ := walk_factors cb c s pgno subno dir hne hp hdir
+  exact ⟨h1, h2, walkRun_eq_runPos cb c pgno subno dir s, fun p sub e h => ⟨lookupX_subno h, lookupX_mem h⟩⟩
 
-example : NoAny Cache.empty := fun _ => by show (0 : UInt16).toNat < 0x3F7F; decide
+example : StartOk Cache.empty 0x1FF := Or.inr rfl
 
 /-- **walk_order.** The positions are probed in strictly ascending (forward) resp. descending (backward)
 (sweep, page number, sub-page number) order, beginning at the start position, wrapping once; every position after
-the first lies inside the statistics window of a valid page number.  In particular no position is probed twice. -/
+the first belongs to a valid page number with cached subpages and is `Landed`: inside the statistics window or - the
+clamp added by ed2772e - the window's first sub-page number in walking direction; with `subno_min <= subno_max`
+(`StatOk`, an invariant of all store histories: `stats_invariant`) that is inside the window too.  In particular no
+position is probed twice. -/
 theorem walk_order (c : Cache) (pgno subno : Int) (hp : PgOk pgno) :
     (walkPositions c pgno subno 1).Pairwise LtF ∧ (walkPositions c pgno subno (-1)).Pairwise LtB ∧
     (∀ dir, dir = 1 ∨ dir = -1 → ∀ x ∈ (walkPositions c pgno subno dir).tail,
-        PgOk x.1 ∧ inRange (c.stat x.1) x.2.1 = true) := by
+        PgOk x.1 ∧ Landed (c.stat x.1) x.2.1 ∧ (StatOk c → inRange (c.stat x.1) x.2.1 = true)) := by
   unfold walkPositions
   obtain ⟨f1, f2⟩ := positions_sorted_fwd c walkFuel pgno (startSub c pgno subno) false hp
   obtain ⟨b1, b2⟩ := positions_sorted_bwd c walkFuel pgno (startSub c pgno subno) false hp
@@ -91,8 +108,8 @@ theorem walk_order (c : Cache) (pgno subno : Int) (hp : PgOk pgno) :
   · intro dir hdir x hx
     simp only [List.tail_cons] at hx
     rcases hdir with rfl | rfl
-    · exact (f1 x hx).2
-    · exact (b1 x hx).2
+    · exact ⟨(f1 x hx).2.1, (f1 x hx).2.2, fun hs => landed_inRange (hs x.1) (f1 x hx).2.2⟩
+    · exact ⟨(b1 x hx).2.1, (b1 x hx).2.2, fun hs => landed_inRange (hs x.1) (b1 x hx).2.2⟩
 
 example : walkPositions Cache.empty 0x100 0 1 = [(0x100, 0, false)] := by decide +kernel
 
@@ -107,140 +124,179 @@ theorem walk_complete (c : Cache) (pgno subno dir : Int) (hp : PgOk pgno) (hdir 
   · exact positions_complete_fwd c walkFuel pgno _ false hp (rankF_lt_fuel hp _ _) q t true hq hin (Or.inr ⟨rfl, rfl⟩)
   · exact positions_complete_bwd c walkFuel pgno _ false hp (rankB_lt_fuel hp _ _) q t true hq hin (Or.inr ⟨rfl, rfl⟩)
 
-/-- **walk_complete_first_sweep.** Before wrapping, a forward walk probes every window position on later page
-numbers, and the rest of the start page PROVIDED `start + 1` is not below the window (`AheadF`); mirror image
-backward (`AheadB`).  The proviso is necessary: `start_page_skipped_counterexample`. -/
+/-- **walk_complete_first_sweep.** (STRENGTHENED: the window proviso on the start page is gone - C17-D4 repaired)
+Before wrapping, a forward walk probes every window position on later page numbers AND every window position of the
+start page behind the start position; mirror image backward.  In particular the walk visits the start page: a
+backward search created at (P, ANY) starts at (P, 0x3F7E) and reaches the cached subpages of P first. -/
 theorem walk_complete_first_sweep (c : Cache) (pgno subno : Int) (hp : PgOk pgno) (q t : Int) (hq : PgOk q)
     (hin : inRange (c.stat q) t = true) :
-    (AheadF c pgno (startSub c pgno subno) false q t false → (q, t, false) ∈ walkPositions c pgno subno 1) ∧
-    (AheadB c pgno (startSub c pgno subno) false q t false → (q, t, false) ∈ walkPositions c pgno subno (-1)) := by
+    ((pgno < q ∨ (pgno = q ∧ startSub c pgno subno < t)) → (q, t, false) ∈ walkPositions c pgno subno 1) ∧
+    ((q < pgno ∨ (pgno = q ∧ t < startSub c pgno subno)) → (q, t, false) ∈ walkPositions c pgno subno (-1)) := by
   unfold walkPositions
   constructor
   · intro h; apply List.mem_cons_of_mem
-    exact positions_complete_fwd c walkFuel pgno _ false hp (rankF_lt_fuel hp _ _) q t false hq hin h
+    exact positions_complete_fwd c walkFuel pgno _ false hp (rankF_lt_fuel hp _ _) q t false hq hin (Or.inl ⟨rfl, h⟩)
   · intro h; apply List.mem_cons_of_mem
-    exact positions_complete_bwd c walkFuel pgno _ false hp (rankB_lt_fuel hp _ _) q t false hq hin h
+    exact positions_complete_bwd c walkFuel pgno _ false hp (rankB_lt_fuel hp _ _) q t false hq hin (Or.inl ⟨rfl, h⟩)
 
-/-- **walk_complete_cached.** If the statistics cover the cached pages (`Covered`), every cached page is found at a
-probed position of the wrapped sweep: the look-up there returns the first page of the chain with that number. -/
-theorem walk_complete_cached (c : Cache) (hcov : Covered c) (pgno subno dir : Int) (hp : PgOk pgno)
-    (hdir : dir = 1 ∨ dir = -1) (q : Nat) (hq : PgOk q) (e : Entry) (he : e ∈ (c.slots q).chain) :
-    ((q : Int), (e.subno : Int), true) ∈ walkPositions c pgno subno dir := by
-  apply walk_complete c pgno subno dir hp hdir q e.subno hq
-  obtain ⟨h1, h2, h3⟩ := hcov q e he
+/-- **stats_invariant.** (STRENGTHENED: lower bound and exact count - C17-D3 repaired) After EVERY history of page
+stores (sub-codes as the decoder delivers them, <= 0x3F7F), by induction: `n_subpages` = number of cached pages of
+that number modulo 65536, `subno_min <= subno_max <= 0x3F7F`, nothing is cached under a page number xFF, and for every
+page number with fewer than 65536 cached pages `subno_min <= every cached sub-page number <= subno_max` (sub-page 0
+included) and `n_subpages != 0` when a page is cached: the statistics cover the cached pages (`Covered`).  A history of
+fewer than 65536 stores satisfies `NoWrap` outright. -/
+theorem stats_invariant (ops : List PutOp) (h : ∀ o ∈ ops, o.subno ≤ 0x3F7F) :
+    Inv (build ops) ∧ NoFF (build ops) ∧ (NoWrap (build ops) → Covered (build ops)) ∧
+    (ops.length < 65536 → NoWrap (build ops)) :=
+  ⟨foldl_inv ops h Cache.empty empty_inv, build_noFF ops, covered_of_inv (foldl_inv ops h Cache.empty empty_inv),
+   noWrap_of_few ops⟩
+
+example : Covered (build [⟨0x100, 0, 0, []⟩, ⟨0x100, 5, 0, []⟩]) :=
+  (stats_invariant _ (by decide)).2.2.1 ((stats_invariant _ (by decide)).2.2.2 (by decide))
+
+/-- **walk_complete_cached.** (STRENGTHENED: `Covered` is no longer assumed) After every history of page stores that
+has not wrapped the 16 bit counter `n_subpages` (`NoWrap`: fewer than 65536 pages cached under each page number - the
+explicit exclusion of C17-D2), every cached page is found at a probed position of the wrapped sweep, from every start
+position, in both directions: the look-up there returns the first page of the chain with that number. -/
+theorem walk_complete_cached (ops : List PutOp) (h : ∀ o ∈ ops, o.subno ≤ 0x3F7F) (hnw : NoWrap (build ops))
+    (pgno subno dir : Int) (hp : PgOk pgno) (hdir : dir = 1 ∨ dir = -1) (q : Nat) (hq : PgOk q) (e : Entry)
+    (he : e ∈ ((build ops).slots q).chain) :
+    ((q : Int), (e.subno : Int), true) ∈ walkPositions (build ops) pgno subno dir := by
+  apply walk_complete (build ops) pgno subno dir hp hdir q e.subno hq
+  obtain ⟨h1, h2, h3⟩ := (stats_invariant ops h).2.2.1 hnw q e he
   rw [inRange_iff]
   unfold Cache.stat
   simp only [Int.toNat_natCast]
   exact ⟨h1, by omega, by omega⟩
 
-/-- **stats_invariant.** After every history of page stores (sub-codes as the decoder delivers them, <= 0x3F7F) the
-statistics satisfy: `n_subpages` = number of cached pages of that number modulo 256, `subno_min <= subno_max`, every
-cached sub-page number <= `subno_max` <= 0x3F7F.  (That `subno_min` is a lower bound, and that `n_subpages` is
-non-zero when pages are cached, do NOT follow: `stats_min_counterexample`, `stats_count_counterexample`.) -/
-theorem stats_invariant (ops : List PutOp) (h : ∀ o ∈ ops, o.subno ≤ 0x3F7F) : Inv (build ops) :=
-  foldl_inv ops h Cache.empty empty_inv
-
-example : Inv (build [⟨0x100, 0, 0, []⟩, ⟨0x100, 5, 0, []⟩]) := stats_invariant _ (by decide)
+example : (((0x100 : Nat) : Int), ((0 : Nat) : Int), true) ∈ walkPositions (build [⟨0x100, 0, 0, []⟩]) 0x555 7 (-1) :=
+  walk_complete_cached [⟨0x100, 0, 0, []⟩] (by decide) (noWrap_of_few _ (by decide)) 0x555 7 (-1) ⟨by decide, by decide⟩
+    (Or.inr rfl) 0x100 ⟨by decide, by decide⟩ ⟨0, 0, [], 0⟩ (by decide +kernel)
 
 /-- **search_next_refines.** `vbi_search_next` = the status mapping applied to the fold of `search_page_fwd` /
-`search_page_rev` over the pages found at the walk positions from the current start position. -/
-theorem search_next_refines (exec : Exec) (c : Cache) (s : SearchSt) (d : Int) (hno : NoAny c) (hne : c.nCached ≠ 0)
-    (hp : PgOk (prepare s d).startPgno) :
+`search_page_rev` over the pages found at the walk positions from the current start position.  (`NoAny` dropped.) -/
+theorem search_next_refines (exec : Exec) (c : Cache) (s : SearchSt) (d : Int) (hne : c.nCached ≠ 0)
+    (hp : PgOk (prepare s d).startPgno) (hok : StartOk c (prepare s d).startPgno) :
     (searchNext exec walkFuel c s d).res =
       statusOf (runPos (callbackOf exec d) c
         (walkPositions c (prepare s d).startPgno (prepare s d).startSubno (dirOf d)) (prepare s d)).1 :=
-  searchNext_factors exec c s d hno hne hp
+  searchNext_factors exec c s d hne hp hok
 
-/-- **search_success_sound.** When a forward `vbi_search_next` reports SUCCESS, the page it returns was found at one of
-the walk positions, is a level one page, and the matcher reported the occurrence [ms, me) in its text from the
-cursor on; the new search context is `highlight` of exactly that occurrence. -/
-theorem search_success_sound (exec : Exec) (c : Cache) (s : SearchSt) (d : Int) (hd : d > 0) (hno : NoAny c)
-    (hne : c.nCached ≠ 0) (hp : PgOk (prepare s d).startPgno)
+/-- **search_success_sound.** When a forward `vbi_search_next` reports SUCCESS (any call of a pass), the page it
+returns was found at one of the walk positions, is a level one page, and the matcher reported the occurrence
+[ms, me) in its text from the cursor on; the new search context is `highlight` of exactly that occurrence.
+(`NoAny` dropped.) -/
+theorem search_success_sound (exec : Exec) (c : Cache) (s : SearchSt) (d : Int) (hd : d > 0)
+    (hne : c.nCached ≠ 0) (hp : PgOk (prepare s d).startPgno) (hok : StartOk c (prepare s d).startPgno)
     (h : (searchNext exec walkFuel c s d).res = .ret SEARCH_SUCCESS) :
     ∃ p sub w e s0 ms me, (p, sub, w) ∈ walkPositions c (prepare s d).startPgno (prepare s d).startSubno 1 ∧
-      lookup c p sub = some e ∧ e.func = FUNC_LOP ∧
+      lookupX c p sub = some e ∧ e.func = FUNC_LOP ∧
       exec {} ((hayFwd e.text (cursorRow s0 p.toNat e) s0.col0).1.drop (hayFwd e.text (cursorRow s0 p.toNat e) s0.col0).2)
         = some (ms, me) ∧
       (searchNext exec walkFuel c s d).st =
         highlight { s0 with pgPgno := p.toNat, pgSubno := e.subno, hl := [] } p.toNat e
           (hayFwd e.text (cursorRow s0 p.toNat e) s0.col0).2 ms me :=
-  searchNext_success_fwd exec c s d hd hno hne hp h
+  searchNext_success_fwd exec c s d hd hne hp hok h
 
 /-- **search_not_found_complete.** When the first forward call of a pass reports NOT_FOUND, the matcher was run on
 the WHOLE text of every level one page found at a walk position of the first sweep, and at a position of the wrapped
-sweep below the stop position - and found nothing. -/
+sweep below the stop position - and found nothing.  (Any cache; `NoAny` dropped.) -/
 theorem search_not_found_complete (exec : Exec) (c : Cache) (s : SearchSt) (d : Int) (hd : d > 0)
-    (hfresh : s.dir = 0) (hno : NoAny c) (hne : c.nCached ≠ 0) (hp : PgOk s.stopPgno0)
+    (hfresh : s.dir = 0) (hne : c.nCached ≠ 0) (hp : PgOk s.stopPgno0) (hok : StartOk c s.stopPgno0)
     (h : (searchNext exec walkFuel c s d).res = .ret SEARCH_NOT_FOUND) :
     ∀ x ∈ walkPositions c s.stopPgno0 s.stopSubno0 1,
       (x.2.2 = false ∨ key x.1 x.2.1 < key s.stopPgno0 s.stopSubno0) →
-      ∀ e, lookup c x.1 x.2.1 = some e → e.func = FUNC_LOP → exec {} (hayFwd e.text (-1) 0).1 = none :=
-  searchNext_not_found_fresh_fwd exec c s d hd hfresh hno hne hp h
+      ∀ e, lookupX c x.1 x.2.1 = some e → e.func = FUNC_LOP → exec {} (hayFwd e.text (-1) 0).1 = none :=
+  searchNext_not_found_fresh_fwd exec c s d hd hfresh hne hp hok h
 
-/-- **search_exact_not_found.** (the NOT_FOUND half of search_exact, forward, first call of a pass) If the statistics
-cover the cached pages, no window reaches 0x3F7F, and the start position (P, S) satisfies the window condition of
-`walk_complete_first_sweep` on its own page (`subno_min(P) <= S + 1`), then NOT_FOUND means that NO cached level one
-page contains the pattern.  Each hypothesis is necessary: `stats_min_counterexample`, `stats_count_counterexample`,
-`walk_order_counterexample_any`, `start_page_skipped_counterexample`. -/
-theorem search_exact_not_found (exec : Exec) (c : Cache) (s : SearchSt) (d : Int) (hd : d > 0)
-    (hfresh : s.dir = 0) (hno : NoAny c) (hcov : Covered c) (hne : c.nCached ≠ 0) (hp : PgOk s.stopPgno0)
-    (hS : 0 ≤ s.stopSubno0 ∧ s.stopSubno0 < 0x3F7F)
-    (hwin : ((c.stat s.stopPgno0).subMin.toNat : Int) ≤ s.stopSubno0 + 1)
-    (h : (searchNext exec walkFuel c s d).res = .ret SEARCH_NOT_FOUND) :
-    ∀ (p sub : Nat), PgOk p → ¬ Matches exec c p sub := by
-  intro p sub hpp ⟨e, hl, hlop, hm⟩
-  have hall := search_not_found_complete exec c s d hd hfresh hno hne hp h
-  -- the page sits in its hash chain, hence inside the statistics window
-  have hmem : e ∈ (c.slots p).chain := by
-    unfold lookup at hl
-    by_cases hv : validPgno (p : Int) = true
-    · simp only [hv, if_true, Int.toNat_natCast] at hl
-      exact List.mem_of_find?_eq_some hl
-    · simp [hv] at hl
-  obtain ⟨c1, c2, c3⟩ := hcov p e hmem
-  have hin : inRange (c.stat p) e.subno = true := by
-    rw [inRange_iff]; unfold Cache.stat; simp only [Int.toNat_natCast]; exact ⟨c1, by omega, by omega⟩
-  have hmax := hno p
-  have hb : e.subno < 0x3F7F := by
-    have : (c.stat (p : Int)).subMax.toNat = (c.slots p).stat.subMax.toNat := by unfold Cache.stat; simp
-    omega
-  -- the look-up at (p, e.subno) returns a page with the same text? it returns `e` itself when sub = e.subno
-  have hsub : (e.subno : Int) = sub ∨ (sub : Int) = ANY_SUBNO := by
-    by_cases hs : (sub : Int) = ANY_SUBNO
-    · right; exact hs
-    · left; exact lookup_subno hl hs
-  have hl' : lookup c p e.subno = some e := by
-    rcases hsub with h1 | h1
-    · rw [h1]; exact hl
-    · -- wildcard: `e` is the head of the chain, the exact look-up of its own number finds it first
-      rw [h1] at hl
-      have := lookup_startSub c p ANY_SUBNO
-      unfold startSub startSubOf at this
-      rw [hl] at this
-      exact this
-  -- where the walk meets (p, e.subno)
-  have hnone : exec {} (hayFwd e.text (-1) 0).1 = none := by
-    by_cases hk : key p e.subno < key s.stopPgno0 s.stopSubno0
-    · exact hall (p, e.subno, true) (walk_complete c _ _ 1 hp (Or.inl rfl) p e.subno hpp hin) (Or.inr hk) e hl' hlop
-    · have hstart : startSub c s.stopPgno0 s.stopSubno0 = s.stopSubno0 := by
-        unfold startSub startSubOf
-        cases hls : lookup c s.stopPgno0 s.stopSubno0 with
-        | none => simp only; rw [if_neg (by unfold ANY_SUBNO; omega)]
-        | some e0 => simp only; exact lookup_subno hls (by unfold ANY_SUBNO; omega)
-      by_cases heq : (p : Int) = s.stopPgno0 ∧ (e.subno : Int) = s.stopSubno0
-      · refine hall (p, e.subno, false) ?_ (Or.inl rfl) e hl' hlop
-        unfold walkPositions; rw [hstart, heq.1, heq.2]; exact List.mem_cons_self
-      · refine hall (p, e.subno, false) ?_ (Or.inl rfl) e hl' hlop
-        apply (walk_complete_first_sweep c _ _ hp p e.subno hpp hin).1
-        rw [hstart]
-        unfold AheadF
-        left; refine ⟨rfl, ?_⟩
-        unfold key at hk
-        unfold PgOk at hp hpp
-        by_cases hpl : s.stopPgno0 < (p : Int)
-        · left; exact hpl
-        · right; refine ⟨by omega, by omega, hwin⟩
-  rw [hnone] at hm; simp at hm
+/-- **search_exact_not_found.** (the NOT_FOUND half of search_exact, forward, first call of a pass; STRENGTHENED: the
+hypotheses `NoAny`, `Covered`, the window condition on the start page and `nCached != 0` are gone)  On every
+reachable cache (any store history, D2 excluded by `NoWrap`), from every start position (P, S) with an exact
+sub-page number: NOT_FOUND means that NO cached level one page contains the pattern. -/
+theorem search_exact_not_found (exec : Exec) (ops : List PutOp) (hops : ∀ o ∈ ops, o.subno ≤ 0x3F7F)
+    (hnw : NoWrap (build ops)) (s : SearchSt) (d : Int) (hd : d > 0) (hfresh : s.dir = 0) (hp : PgOk s.stopPgno0)
+    (hS : 0 ≤ s.stopSubno0 ∧ s.stopSubno0 ≤ 0xFFFF ∧ s.stopSubno0 ≠ ANY_SUBNO)
+    (h : (searchNext exec walkFuel (build ops) s d).res = .ret SEARCH_NOT_FOUND) :
+    ∀ (p sub : Nat), PgOk p → ¬ Matches exec (build ops) p sub :=
+  searchNext_not_found_exact_fwd exec (build ops) s d hd hfresh (reachable ops hops hnw _ hp).1 hp
+    (reachable ops hops hnw _ hp).2 hS h
+
+/-- **search_exact_first_success.** (NEW: the SUCCESS half of search_exact - "first in order" - forward, first call of
+a pass)  On every reachable cache (D2 excluded by `NoWrap`): when the first call of a pass from (P, S) reports SUCCESS,
+the page it returns is a valid page number, is cached as a level one page whose text contains the pattern, and no
+page containing the pattern comes before it in pass order (ascending (page, sub-page) from (P, S), wrapping once:
+`passRank`). -/
+theorem search_exact_first_success (exec : Exec) (ops : List PutOp) (hops : ∀ o ∈ ops, o.subno ≤ 0x3F7F)
+    (hnw : NoWrap (build ops)) (s : SearchSt) (d : Int) (hd : d > 0) (hfresh : s.dir = 0) (hp : PgOk s.stopPgno0)
+    (hS : 0 ≤ s.stopSubno0 ∧ s.stopSubno0 ≤ 0xFFFF ∧ s.stopSubno0 ≠ ANY_SUBNO)
+    (h : (searchNext exec walkFuel (build ops) s d).res = .ret SEARCH_SUCCESS) :
+    PgOk (searchNext exec walkFuel (build ops) s d).st.pgPgno ∧
+    Matches exec (build ops) (searchNext exec walkFuel (build ops) s d).st.pgPgno
+      (searchNext exec walkFuel (build ops) s d).st.pgSubno ∧
+    ∀ q t : Nat, PgOk q → Matches exec (build ops) q t →
+      passRank s.stopPgno0 s.stopSubno0 (searchNext exec walkFuel (build ops) s d).st.pgPgno
+        (searchNext exec walkFuel (build ops) s d).st.pgSubno ≤ passRank s.stopPgno0 s.stopSubno0 q t :=
+  searchNext_first_success_fwd exec (build ops) s d hd hfresh (reachable ops hops hnw _ hp).1 hp
+    (reachable ops hops hnw _ hp).2 hS h
+
+/-- **search_exact_first_call.** (NEW: both directions)  On every reachable cache (D2 excluded by `NoWrap`), the first
+forward call of a pass reports SUCCESS if and only if some cached level one page contains the pattern, NOT_FOUND if and
+only if none does and something is cached at all, and CACHE_EMPTY otherwise.  Together with
+`search_exact_first_success`: it returns the first matching page in pass order when there is one. -/
+theorem search_exact_first_call (exec : Exec) (ops : List PutOp) (hops : ∀ o ∈ ops, o.subno ≤ 0x3F7F)
+    (hnw : NoWrap (build ops)) (s : SearchSt) (d : Int) (hd : d > 0) (hfresh : s.dir = 0) (hp : PgOk s.stopPgno0)
+    (hS : 0 ≤ s.stopSubno0 ∧ s.stopSubno0 ≤ 0xFFFF ∧ s.stopSubno0 ≠ ANY_SUBNO) :
+    ((searchNext exec walkFuel (build ops) s d).res = .ret SEARCH_SUCCESS ↔
+      ∃ p sub : Nat, PgOk p ∧ Matches exec (build ops) p sub) ∧
+    ((searchNext exec walkFuel (build ops) s d).res = .ret SEARCH_NOT_FOUND ↔
+      (build ops).nCached ≠ 0 ∧ ∀ p sub : Nat, PgOk p → ¬ Matches exec (build ops) p sub) ∧
+    ((searchNext exec walkFuel (build ops) s d).res = .ret SEARCH_CACHE_EMPTY ↔ (build ops).nCached = 0) := by
+  have hS1 := search_exact_first_success exec ops hops hnw s d hd hfresh hp hS
+  have hN1 := search_exact_not_found exec ops hops hnw s d hd hfresh hp hS
+  obtain ⟨f1, _⟩ := prepare_fresh_fwd (s := s) hd hfresh
+  have hp' : PgOk (prepare s d).startPgno := by rw [f1]; exact hp
+  have hok' : StartOk (build ops) (prepare s d).startPgno := by rw [f1]; exact (reachable ops hops hnw _ hp).2
+  -- a cached page makes the cache count non-zero
+  have hcnt : ∀ p sub : Nat, Matches exec (build ops) p sub → (build ops).nCached ≠ 0 := by
+    intro p sub ⟨e, hl, _, _⟩
+    apply build_counted ops
+    have hm := lookupX_mem hl
+    exact ⟨_, List.ne_nil_of_mem hm⟩
+  by_cases h0 : (build ops).nCached = 0
+  · have he := searchNext_empty exec (build ops) s d h0
+    refine ⟨?_, ?_, ?_⟩
+    · constructor
+      · intro h; rw [he] at h; exact absurd (Res.ret.inj h) (by decide)
+      · intro ⟨p, sub, _, hm⟩; exact absurd h0 (hcnt p sub hm)
+    · constructor
+      · intro h; rw [he] at h; exact absurd (Res.ret.inj h) (by decide)
+      · intro h; exact absurd h0 h.1
+    · exact ⟨fun _ => h0, fun _ => he⟩
+  · have hdich := searchNext_fwd_status exec (build ops) s d hd h0 hp' hok'
+    refine ⟨?_, ?_, ?_⟩
+    · constructor
+      · intro h; exact ⟨_, _, (hS1 h).1, (hS1 h).2.1⟩
+      · intro ⟨p, sub, hpp, hm⟩
+        rcases hdich with h | h
+        · exact h
+        · exact absurd hm (hN1 h p sub hpp)
+    · constructor
+      · intro h; exact ⟨h0, hN1 h⟩
+      · intro ⟨_, hnone⟩
+        rcases hdich with h | h
+        · exact absurd (hS1 h).2.1 (hnone _ _ (hS1 h).1)
+        · exact h
+    · constructor
+      · intro h; rcases hdich with h' | h' <;> (rw [h'] at h; exact absurd (Res.ret.inj h) (by decide))
+      · intro h; exact absurd h h0
+
+/-- non-vacuity: a fresh search created by `vbi_search_new (0x100, VBI_ANY_SUBNO)` on a one-page cache meets every
+hypothesis of the three search_exact theorems -/
+example : ∃ (ops : List PutOp) (s : SearchSt), (∀ o ∈ ops, o.subno ≤ 0x3F7F) ∧ NoWrap (build ops) ∧ s.dir = 0 ∧
+    PgOk s.stopPgno0 ∧ (0 ≤ s.stopSubno0 ∧ s.stopSubno0 ≤ 0xFFFF ∧ s.stopSubno0 ≠ ANY_SUBNO) ∧
+    searchNew 0x100 ANY_SUBNO 2 = some s ∧ (build ops).nCached ≠ 0 :=
+  ⟨[⟨0x100, 0, 0, []⟩], (searchNew 0x100 ANY_SUBNO 2).getD {}, by decide, noWrap_of_few _ (by decide), by decide,
+   ⟨by decide, by decide⟩, ⟨by decide, by decide, by decide⟩, by rfl, by decide +kernel⟩
 
 /-- **highlight_real.** The cells `highlight` paints are exactly the cells of the haystack characters
 [first + ms, first + me): `layout` lists, per haystack character (row separators included), the cells it occupies. -/
@@ -255,55 +311,78 @@ theorem haystack_fits (t : Text) (row col : Int) :
   ⟨hayFwd_length t row col, hayRev_length t row col⟩
 
 /-- **rev_matches_terminate.** The repeated `ure_exec` of `search_page_rev` ends when the matcher never returns an
-empty match (`me = 0`); an empty match would repeat forever (`me` does not advance). -/
+empty match (`me = 0`); an empty match would repeat forever (`me` does not advance).  (Hypothesis still needed.) -/
 theorem rev_matches_terminate (exec : Exec) (hay : List Nat) (ne : Bool)
     (hpos : ∀ f t ms me, exec f t = some (ms, me) → 0 < me) :
     revMatches exec hay ne (hay.length + 2) 0 0 0 ≠ none :=
   revMatches_terminates exec hay ne hpos
 
-/-! ## counterexamples (each is replayed on the C code, see corpus/C17 and NOTES/C17.md) -/
+/-- **matcher_exact.** (replaces `matcher_quirk_counterexample`, C17-D1 repaired by 8b7ac93)  The literal matcher the
+model runs against the real `ure_exec` in the correspondence (`exactLit`) is the leftmost substring search on the case
+folded text: it returns the first offset at which the pattern occurs, `none` exactly when it occurs nowhere.  On the
+historical witness it finds "ab" in "aab" at [1, 3) - where the old `ure_exec` (`quirkLit`) found nothing. -/
+theorem matcher_exact (cf : Bool) (pat : List Nat) (hne : pat ≠ []) (f : Flags) (text : List Nat) :
+    (match exactLit cf pat f text with
+     | some (ms, me) => ms < text.length ∧ me = ms + pat.length ∧
+         OccursAt (pat.map (foldc cf)) (text.map (foldc cf)) ms ∧
+         ∀ j, j < ms → ¬ OccursAt (pat.map (foldc cf)) (text.map (foldc cf)) j
+     | none => ∀ j, j < text.length → ¬ OccursAt (pat.map (foldc cf)) (text.map (foldc cf)) j) ∧
+    exactLit false [0x61, 0x62] {} [0x61, 0x61, 0x62] = some (1, 3) ∧
+    quirkLit false [0x61, 0x62] {} [0x61, 0x61, 0x62] = none :=
+  ⟨exactLit_spec cf pat hne f text, by decide, by decide⟩
 
-/-- **start_page_skipped_counterexample (D4).** Only page 102.0 is cached and it contains "ab" (the matcher finds
-it at [85, 87) of the page text).  A backward search created at (102, ANY) - documented: 102 is the LAST page a
-backward search visits - starts at (102, 0x3F7E); 0x3F7D is outside the window [0, 0], so the walk leaves the page
-at once, never probes (102, 0) in its first sweep, and the stop test ends the second sweep before it: NOT_FOUND.
-The same happens forward whenever `start + 1` is below the window of the start page. -/
-theorem start_page_skipped_counterexample :
-    (lookup cexD4 0x102 0).isSome ∧
-    exAb {} (hayFwd abPage (-1) 0).1 = some (85, 87) ∧
+/-! ## the historical failing inputs, now with the correct answers (each is replayed on the C code: corpus/C17) -/
+
+/-- **start_page_visited (was start_page_skipped_counterexample, C17-D4 repaired by ed2772e).** Only page 102.0 is
+cached and it contains "ab".  A backward search created at (102, ANY) starts at (102, 0x3F7E); the walk now stays on
+page 102, probes (102, 0) as its second position of the FIRST sweep, hands the page to the callback, and
+`vbi_search_next (dir = -1)` returns SUCCESS with page 102.0. -/
+theorem start_page_visited :
     (cexD4Search.stopPgno1, cexD4Search.stopSubno1) = (0x102, 0x3F7E) ∧
-    ((0x102, 0, false) ∉ walkPositions cexD4 0x102 0x3F7E (-1)) ∧
-    (searchNext exAb walkFuel cexD4 cexD4Search (-1)).res = .ret SEARCH_NOT_FOUND :=
-  cexD4_facts
+    (walkPositions cexD4 0x102 0x3F7E (-1)).take 2 = [(0x102, 0x3F7E, false), (0x102, 0, false)] ∧
+    (walk logTwo walkFuel cexD4 [] 0x102 0x3F7E (-1)).st.take 1 = [(0x102, 0, false)] ∧
+    cexD4Out = (.ret SEARCH_SUCCESS, 0x102, 0) :=
+  ⟨cexD4_facts.1, cexD4_facts.2.1, cexD4_facts.2.2, cexD4_search⟩
 
-/-- **stats_min_counterexample (D3).** Store page 899 with sub-code 0 (text "ab"), then with sub-code 5:
-`subno_min` becomes 5 ("0 == subno_min" is read as "none yet"), page 899.0 stays cached outside the window, no walk
-from any start position ever probes it after its first position, and a forward search for "ab" reports NOT_FOUND. -/
-theorem stats_min_counterexample :
-    ¬ Covered cexD3 ∧ (lookup cexD3 0x899 0).isSome ∧ (cexD3.slots 0x899).stat = ⟨2, 5, 5⟩ ∧
-    (∀ pgno subno dir w, PgOk pgno → dir = 1 ∨ dir = -1 → (0x899, 0, w) ∉ (walkPositions cexD3 pgno subno dir).tail) ∧
-    (searchNext exAb walkFuel cexD3 ((searchNew 0x8FF ANY_SUBNO 2).getD {}) 1).res = .ret SEARCH_NOT_FOUND :=
-  cexD3_facts
+/-- **stats_min_zero_kept (was stats_min_counterexample, C17-D3 repaired by 5e41e82).** Store page 899 with sub-code 0
+(text "ab"), then with sub-code 5: the window is [0, 5] (it was [5, 5]), a forward walk from 8FF hands 899.0 and then
+899.5 to the callback, and a forward search for "ab" created at (8FF, ANY) returns SUCCESS with page 899.0. -/
+theorem stats_min_zero_kept :
+    (cexD3.slots 0x899).stat = ⟨2, 0, 5⟩ ∧
+    (walk logTwo walkFuel cexD3 [] 0x8FF 0 1).st = [(0x899, 0, true), (0x899, 5, true)] ∧
+    cexD3Out = (.ret SEARCH_SUCCESS, 0x899, 0) :=
+  ⟨cexD3_facts.1, cexD3_facts.2, cexD3_search⟩
 
-/-- **stats_count_counterexample (D2).** 256 x (page 100 with sub-code 1, then with sub-code 0x100) leaves 256 cached
-pages of number 100 with the 8-bit `n_subpages` wrapped to 0: no walk probes any position of page 100 again. -/
-theorem stats_count_counterexample :
-    (cexD2.slots 0x100).chain.length = 256 ∧ (cexD2.slots 0x100).stat.nSub = 0 ∧ ¬ Covered cexD2 ∧
-    (∀ pgno subno dir t w, PgOk pgno → dir = 1 ∨ dir = -1 → (0x100, t, w) ∉ (walkPositions cexD2 pgno subno dir).tail) :=
+/-- **stats_count_256 (was stats_count_counterexample, C17-D2 at 256 pages repaired by 5e41e82).** 256 x (page 100
+with sub-code 1, then with sub-code 0x100) leaves 256 cached pages of number 100; `n_subpages` is 256 (it wrapped to 0
+while it was 8 bits wide), the window is [1, 0x100] and contains the cached sub-page number.  The wrap now needs 65536
+pages under one page number: `NoWrap`. -/
+theorem stats_count_256 :
+    (cexD2.slots 0x100).chain.length = 256 ∧ (cexD2.slots 0x100).stat = ⟨256, 1, 0x100⟩ ∧
+    inRange (cexD2.stat 0x100) 0x100 = true :=
   cexD2_facts
 
-/-- **walk_order_counterexample_any (D5).** Hex page 1A2 cached with sub-codes 0x3F7E and 0x3F7F: the position
-(1A2, 0x3F7F) is looked up with the wildcard mask (`VBI_ANY_SUBNO == subno`) and returns the most recently used page -
-sub-page 0x3F7E a second time in the same sweep; sub-page 0x3F7F is not passed to the callback. -/
-theorem walk_order_counterexample_any :
-    ¬ NoAny cexD5 ∧ (cexD5.slots 0x1A2).chain.map (·.subno) = [0x3F7F, 0x3F7E] ∧
-    cexD5Visits = [(0x1A2, 0x3F7E, false), (0x1A2, 0x3F7E, false)] :=
+/-- **walk_exact_lookup_3f7f (was walk_order_counterexample_any, C17-D5 repaired by ce86777).** Hex page 1A2 cached
+with sub-codes 0x3F7E and 0x3F7F: the position (1A2, 0x3F7F) is looked up exactly; the walk hands sub-page 0x3F7E and
+then sub-page 0x3F7F to the callback (it handed 0x3F7E over twice). -/
+theorem walk_exact_lookup_3f7f :
+    (cexD5.slots 0x1A2).chain.map (·.subno) = [0x3F7F, 0x3F7E] ∧
+    cexD5Visits = [(0x1A2, 0x3F7E, false), (0x1A2, 0x3F7F, false)] :=
   cexD5_facts
 
-/-- **matcher_quirk_counterexample (D1).** `ure_exec` as it runs a literal (`quirkLit`) misses "ab" in "aab"; a
-leftmost matcher (`exactLit`) finds it at [1, 3). -/
-theorem matcher_quirk_counterexample :
-    quirkLit false [0x61, 0x62] {} [0x61, 0x61, 0x62] = none ∧
-    exactLit false [0x61, 0x62] {} [0x61, 0x61, 0x62] = some (1, 3) := by decide
+/-! ## a remaining defect of the current code (replayed on the C code, known finding C17-D7) -/
+
+/-- **turn_on_3f7f_counterexample (C17-D7, NEW, open finding).** "Each once per pass, in order" fails across a
+direction change on a page whose sub-code is 0x3F7F.  Hex page 11F is cached with sub-codes 0 and 0x3F7F, both
+contain "ab" (the matcher finds it at [85, 87) of 11F.0).  A backward search created at (120, ANY) has returned
+11F.3F7F; `cexD7Turn` is the search context at that point.  Turning forward, `vbi_search_next` reads
+`start_subno == 0x3F7F` as VBI_ANY_SUBNO and sets the forward stop position to (11F, 0); the pass reports NOT_FOUND
+without searching 11F.0.  Repair proposed: fixes/C17-turn-3f7f.diff. -/
+theorem turn_on_3f7f_counterexample :
+    ((prepare cexD7Turn 1).stopPgno0, (prepare cexD7Turn 1).stopSubno0) = (0x11F, 0) ∧
+    ((lookupX cexD7 0x11F 0).map (·.text)) = some abPage ∧
+    exAb {} (hayFwd abPage (-1) 0).1 = some (85, 87) ∧
+    (searchNext exAb walkFuel cexD7 cexD7Turn 1).res = .ret SEARCH_NOT_FOUND :=
+  cexD7_facts
 
 end Zvbi.Props.C17
